@@ -440,7 +440,14 @@ pub fn c10_parts(quick: bool) -> (Vec<EwSpec>, Vec<Scenario>) {
                 if let Some(k) = ka { if k < t {
                     let mut env = EwEnv::basic(0, (10 * t / cad) as usize + 20);
                     env.deltas = leak_deltas(cad, &[]); env.fair_delta = cad; env.fates = DF_NONE; env.stop_when_done = false;
-                    if cad >= 7 { scs.push(sc("C10.keepalive-idle", &cfg, vec![at(0, Act::Connect(0))], env, 0, EO_C10 | EO_KEEPALIVE)); }
+                    if cad >= 7 {
+                        scs.push(sc("C10.keepalive-idle", &cfg, vec![at(0, Act::Connect(0))], env.clone(), 0, EO_C10 | EO_KEEPALIVE));
+                        // keep-alive enabled on one endpoint only: its frames (and the peer's replies to them) keep both ends alive
+                        let mut c1 = cfg.clone(); c1.server.keepalive = false;
+                        scs.push(sc("C10.keepalive-idle.client-only", &c1, vec![at(0, Act::Connect(0))], env.clone(), 0, EO_C10 | EO_KEEPALIVE));
+                        let mut c2 = cfg.clone(); c2.clients[0].keepalive = false;
+                        scs.push(sc("C10.keepalive-idle.server-only", &c2, vec![at(0, Act::Connect(0))], env, 0, EO_C10 | EO_KEEPALIVE));
+                    }
                 } }
             }
         }
